@@ -162,7 +162,7 @@ TEMPLATES = [
     T("create_table", "CREATE TABLE",
       "create table ~t2 (~a int, ~b varchar(3), \"mC\" number(10,2) not null, ~d timestamp_ntz, ~e variant, "
       "~f float, ~g boolean, ~h date) comment = 'Hello'",
-      ["status"], status=(CREATED, "Table", "t2"),
+      status=(CREATED, "Table", "t2"),
       fx=[("table", "t2", ["a", "b", '"mC"', "d", "e", "f", "g", "h"])]),
     T("create_table_q", "CREATE TABLE", 'create table "Mixed" (~x int)', status=(CREATED, "Table", '"Mixed"'),
       fx=[("table", '"Mixed"', ["x"])]),
@@ -339,12 +339,13 @@ def _state(fs):
     return tuple(sorted(observe.catalog(fs, views=True, data=True).items()))
 
 
-def model_after(tpl: T | None):
+def model_after(tpl: T | None, succeeded: bool = True):
+    """names model after the prelude and (if it succeeded) the template's statement"""
     cat = R.Catalog(DB, SCHEMA)
     for _sql, fx in PRELUDE:
         for f in fx:
             cat.apply(f)
-    if tpl is not None:
+    if tpl is not None and succeeded:
         for f in tpl.fx:
             cat.apply(f)
     return cat
@@ -370,7 +371,7 @@ def execute(tid: str, sql: str, sweep: bool = False):
             r = _exec(pc, p, False)
             post.append((r["status"], r["rows"]))
         o["post"] = (tuple(post), _state(fs), _context(conn))
-        findings = sweep_reports(conn, tpl) if sweep else None
+        findings = sweep_reports(conn, tpl, o["status"][0] == "ok") if sweep else None
     return o, findings
 
 
@@ -442,12 +443,12 @@ def _q(cur, sql):
         return None, f"{type(e).__name__}: {str(e)[:120]}"
 
 
-def sweep_reports(conn, tpl: T):
+def sweep_reports(conn, tpl: T, succeeded: bool = True):
     """Read every reporting surface and judge each *name* on it. -> [(surface, cls, failed, detail)] plus
     ('absent', surface, name) records for expected names that are not reported at all (not a verdict)."""
     from snowflake.connector.cursor import DictCursor
 
-    cat = model_after(tpl)
+    cat = model_after(tpl, succeeded)
     verb = cat.verbatim
     cur = conn.cursor(DictCursor)
     out = []
